@@ -71,14 +71,45 @@ def run(tier, seed, jobs):
             {"s": A, "op": "delete", "m": "a"}, {"s": A, "op": "create", "m": "a"}, {"s": A, "op": "subscribe", "m": "a"}]
     plans.append({"cfg_ref": ("vf.props.c12", "cfg", ["shutdown"]), "alphabet": core, "depth": 4 if tier == "quick" else 5,
                   "label": "shutdown()+start, core alphabet, deep"})
-    return run_h(PROP, RULES, plans, ("C12",), jobs, seed,
+    res = run_h(PROP, RULES, plans, ("C12",), jobs, seed,
                  ["one client session; mailboxes INBOX(3), a, a/b (+ the five SPECIAL-USE mailboxes in the run() plan); pack threshold 3",
                   "differential oracle: observation before vs after the restart; nothing is compared with a hand-written expectation",
                   "flags compared modulo \\Recent and the derived `unseen`; RECENT counts not compared; \\Marked/\\Unmarked ignored in LIST"],
                  time_budget=170 if tier == "quick" else 1200)
+    # schedule part: what two sessions did at the same time survives an orderly restart (LSUB, LIST, STATUS before = after)
+    from ..explore import sched
+
+    per = []
+    for sc in s_scenarios():
+        r = sched.explore(sc, 2, jobs, seed, max_exec=30000 if tier == "quick" else 100000)
+        res.failures.extend(f for f in r["failures"] if f.rule.startswith("C12."))
+        res.coverage["states"] += r["executions"]
+        res.coverage["transitions"] += r["steps"]
+        res.coverage["traces_validated_against_impl"] += r["executions"]
+        per.append({"scenario": sc["name"], "executions": r["executions"], "bound": r["bound_completed"], "outcomes": r["distinct_outcomes"], "cap": r["cap"]})
+    res.coverage["schedule_part"] = per
+    res.assumptions.append("schedule part: SUBSCRIBE / UNSUBSCRIBE / APPEND of one session while another activates the same mailbox, every schedule with <=2 deviations, "
+                           "then shutdown()+start: LSUB, LIST and STATUS (MESSAGES UIDNEXT UIDVALIDITY) of every mailbox are the same before and after")
+    return res
+
+
+def s_scenarios():
+    base = {"cfg_ref": ["vf.props.c06", "cfg", []], "loopopts": {"preempt_timers": False}, "prelude": [{"s": "A", "op": "select", "m": "INBOX"}], "epilogue_restart_same": True}
+    out = []
+    for name, a, b in [("subscribe-e|select-e (e inactive)", {"op": "subscribe", "m": "e"}, {"op": "select", "m": "e"}),
+                       ("subscribe-e|status-e (e inactive)", {"op": "subscribe", "m": "e"}, {"op": "status", "m": "e"}),
+                       ("append-e|select-e (e inactive)", {"op": "append", "m": "e", "cid": "q7"}, {"op": "select", "m": "e"})]:
+        out.append(dict(base, name=name, concurrent={"A": [dict(a, s="A")], "B": [dict(b, s="B")]}))
+    return out
 
 
 def replay(rec):
+    rp = rec["replay"]
+    if rp.get("driver") == "s":
+        from ..explore import sched
+
+        _p, _n, _sig, fails, _st = sched.run_one((rp["scenario"], rp["choices"]))
+        return [f for f in fails if f.rule.startswith("C12.")]
     from .hcommon import replay_h
 
     return replay_h("C12.", rec)
